@@ -414,3 +414,22 @@ def run(index, rep, tier):
         ok = any(a in ("_taxon_accession_index_map", "_taxa") for a, b, _ in attr_reads(fi.node))
         rep.check(ok, "R10.8", fi.qualname, "membership source", fn_where(fi), "`taxon in namespace` consults the index map / member list",
                   "TaxonNamespace.__contains__ no longer consults the index map or member list")
+
+    # ---- R10.10 one default per look-up option
+    with rep.section("R10.10"):
+        rep.rule("R10.10", "one default per look-up option: an option that four or more methods of the namespace classes take under the same name (is_case_sensitive, first_match_only ...) has the same default in all of them - `None` = the namespace's own setting for case sensitivity, all matches for label look-ups")
+        rep.floor("R10.10", "options shared by four or more namespace methods", 2, same_default_rule(index, rep, "R10.10", [TM]))
+    # ---- R10.11 clear() forgets everything
+    with rep.section("R10.11"):
+        rep.rule("R10.11", "clear() forgets everything a removal forgets: every per-taxon table that remove_taxon pops from is emptied by TaxonNamespace.clear (the lazily filled bitmask cache included - a taxon added again after clear() must not get its old bit back)")
+        tns = index.klass(TNS)
+        rm = tns.methods["remove_taxon"]
+        cl = tns.methods["clear"]
+        popped = {w.attr for w in writes_in(rm.node) if w.kind == "mutcall" and w.base is not None and norm(w.base) == "self" and w.method in ("pop", "remove", "discard")}
+        popped |= {x.func.value.attr for x in ast.walk(rm.node) if isinstance(x, ast.Call) and isinstance(x.func, ast.Attribute) and x.func.attr in ("pop", "remove", "discard") and isinstance(x.func.value, ast.Attribute) and norm(x.func.value.value) == "self"}
+        cleared = {w.attr for w in writes_in(cl.node) if w.base is not None and norm(w.base) == "self" and (w.kind == "store" or (w.kind == "mutcall" and w.method == "clear"))}
+        cleared |= {x.func.value.attr for x in ast.walk(cl.node) if isinstance(x, ast.Call) and isinstance(x.func, ast.Attribute) and x.func.attr == "clear" and isinstance(x.func.value, ast.Attribute) and norm(x.func.value.value) == "self"}
+        rep.floor("R10.11", "per-taxon tables popped by remove_taxon", 3, len(popped))
+        for a_ in sorted(popped):
+            rep.check(a_ in cleared, "R10.11", cl.qualname, "%s survives clear()" % a_, fn_where(cl), "clear() empties %s" % a_,
+                      "TaxonNamespace.clear leaves `%s` as it is although remove_taxon removes a taxon's entry from it: a taxon whose bit was looked up before clear() keeps that entry, so when the same Taxon object is added again taxon_bitmask() returns the OLD bit while its accession index is new - bit and index disagree, bitmask_taxa_list raises KeyError, splits are rendered with the wrong taxa" % a_)
